@@ -10,6 +10,7 @@ import (
 
 	. "verif/harness/kit"
 
+	"github.com/skycoin/skycoin/src/api"
 	"github.com/skycoin/skycoin/src/cipher"
 	"github.com/skycoin/skycoin/src/cipher/crypto"
 	"github.com/skycoin/skycoin/src/coin"
@@ -629,6 +630,49 @@ func run(args []string) error {
 				idx = append(idx, j)
 			}
 			labels = append(labels, "idx=every")
+		}
+
+		// representation of the slice arguments: nil, empty non-nil, or what the API handler's JSON
+		// decoding of the request body produces (/api/v2/wallet/transaction/sign: "sign_indexes": [..])
+		rep := "idx-rep=as-built"
+		switch c := r.Intn(100); {
+		case c < 30 && len(idx) == 0:
+			idx = []int{}
+			rep = "idx-rep=empty-non-nil"
+		case c < 45 && len(idx) == 0:
+			idx = nil
+			rep = "idx-rep=nil"
+		case c < 80:
+			body := "{\"wallet_id\":\"w\",\"encoded_transaction\":\"00\",\"sign_indexes\":" + strings.Replace(fmt.Sprint(append([]int{}, idx...)), " ", ",", -1) + "}"
+			if len(idx) == 0 && r.Chance(30) {
+				body = "{\"wallet_id\":\"w\",\"encoded_transaction\":\"00\"}" // field absent
+				rep = "idx-rep=json-absent"
+			} else if len(idx) == 0 && r.Chance(30) {
+				body = "{\"wallet_id\":\"w\",\"encoded_transaction\":\"00\",\"sign_indexes\":null}"
+				rep = "idx-rep=json-null"
+			} else {
+				rep = "idx-rep=json"
+			}
+			var req api.WalletSignTransactionRequest
+			if err := json.Unmarshal([]byte(body), &req); err != nil {
+				return fmt.Errorf("decoding %s: %v", body, err)
+			}
+			if len(req.SignIndexes) != len(idx) {
+				return fmt.Errorf("JSON decoding changed the index list")
+			}
+			idx = req.SignIndexes
+		}
+		labels = append(labels, rep)
+		if len(txn.Sigs) == 0 && r.Bool() {
+			txn.Sigs = []cipher.Sig{} // empty, not nil
+			labels = append(labels, "sigs-rep=empty-non-nil")
+		}
+		if len(txn.In) == 0 && r.Bool() {
+			txn.In = []cipher.SHA256{}
+			labels = append(labels, "ins-rep=empty-non-nil")
+		}
+		if len(uxs) == 0 {
+			uxs = []coin.UxOut{}
 		}
 
 		before, errS := txn.Serialize()
